@@ -159,7 +159,7 @@ def show(t):
 
 # ---- abstract execution of a builder ---------------------------------------------------------------------------------
 class Builder:
-    def __init__(self, prog, fn, fields, config, params=None, optable=None, sym_sources=None, op_sources=None, cond_fallback=None):
+    def __init__(self, prog, fn, fields, config, params=None, optable=None, sym_sources=None, op_sources=None, cond_fallback=None, container_sources=None):
         """fields : {member qualified-name suffix: symbol} for the header fields that denote user expressions
         config : {condition text (ids removed, blanks removed): bool} for the header facts
         params : {parameter name: symbol}"""
@@ -169,6 +169,7 @@ class Builder:
         self.why = {}
         self.sym_sources = sym_sources      # callable(node) -> term | None: nodes that denote parts of the user's loop header
         self.op_sources = op_sources        # callable(node) -> operator spelling | None
+        self.container_sources = container_sources  # callable(base node) -> tag | None: `base[i]` denotes the symbol TAG[i]
         self.cond_fallback = cond_fallback  # callable(node) -> bool | None for conditions that are not header facts
         self.captures = []                  # (kind, target text, term): values stored into statements / declarations
         if optable is None:
@@ -183,6 +184,13 @@ class Builder:
             return not self.cond(kids(e)[0])
         if e["k"] == "ParenExpr":
             return self.cond(kids(e)[0])
+        if e["k"] == "BinaryOperator" and e.get("op") in ("<", "<=", ">", ">=", "==", "!="):
+            try:
+                l, r = self.ev(kids(e)[0]), self.ev(kids(e)[1])
+            except TermError:
+                l = r = None
+            if l is not None and l[0] == "c" and r[0] == "c":
+                return {"<": l[1] < r[1], "<=": l[1] <= r[1], ">": l[1] > r[1], ">=": l[1] >= r[1], "==": l[1] == r[1], "!=": l[1] != r[1]}[e["op"]]
         if e["k"] == "CXXMemberCallExpr" and callee(e).endswith("::operator bool"):
             return self.cond(call_object(e))
         if e["k"] in ("CXXOperatorCallExpr", "BinaryOperator") and e.get("op") == "&":
@@ -234,6 +242,19 @@ class Builder:
                 return t
         if k in ("ExprWithCleanups", "MaterializeTemporaryExpr", "CXXBindTemporaryExpr", "ParenExpr", "CXXDefaultArgExpr"):
             return self.ev(c[0], depth + 1)
+        if k == "BinaryOperator" and e.get("op") in ("+", "-", "*") and "int" in self.f.type(e) and "*" not in self.f.type(e):
+            l, r = self.ev(c[0], depth + 1), self.ev(c[1], depth + 1)
+            if l[0] == "c" and r[0] == "c":
+                return ("c", {"+": l[1] + r[1], "-": l[1] - r[1], "*": l[1] * r[1]}[e["op"]])
+            return (e["op"], l, r)
+        if self.container_sources is not None and ((k == "CXXOperatorCallExpr" and e.get("op") == "[]" and len(c) == 3) or k == "ArraySubscriptExpr"):
+            base, idx = (c[1], c[2]) if k == "CXXOperatorCallExpr" else (c[0], c[1])
+            tag = self.container_sources(strip(base))
+            if tag is not None:
+                it = self.ev(idx, depth + 1)
+                return ("s", "%s[%s]" % (tag, show(it)))
+        if k == "CXXOperatorCallExpr" and e.get("op") == "[]" and callee(e) == NS + "expr::operator[]" and len(c) == 3:
+            return ("[]", self.ev(c[1], depth + 1), self.ev(c[2], depth + 1))
         if k == "CXXOperatorCallExpr" and e.get("op") in DSL_OPS and callee(e).startswith(NS + "operator") and len(c) == 3:
             return (e["op"], self.ev(c[1], depth + 1), self.ev(c[2], depth + 1))
         if is_call(e) and callee(e) == NS + "expr::binaryOpExpr":
@@ -351,6 +372,8 @@ class Builder:
         if e["k"] == "CXXOperatorCallExpr" and e.get("op") == "=" and len(kids(e)) == 3 and strip(kids(e)[1])["k"] == "DeclRefExpr" and strip(kids(e)[1]).get("loc"):
             self.bind(strip(kids(e)[1])["d"], kids(e)[2])
             return None
+        if e["k"] == "BinaryOperator" and e.get("op") == "=" and strip(kids(e)[0])["k"] in ("CXXOperatorCallExpr", "ArraySubscriptExpr"):
+            return None       # element of a local container: denoted symbolically through container_sources
         if e["k"] == "BinaryOperator" and e.get("op") == "=" and strip(kids(e)[0])["k"] == "MemberExpr":
             try:
                 self.captures.append(("assign", strip(kids(e)[0]), self.ev(kids(e)[1])))
@@ -371,11 +394,38 @@ class Builder:
             return None
         if e["k"] in ("CXXDeleteExpr",):
             return None
-        if k in ("ForStmt", "WhileStmt", "DoStmt", "CXXForRangeStmt", "SwitchStmt"):
+        if k == "ForStmt" and len(kids(s)) >= 4:
+            init, cnd, inc, body = kids(s)[0], kids(s)[-3], kids(s)[-2], kids(s)[-1]
+            if init["k"] != "NullStmt":
+                self.run(init)
+            for _ in range(65):
+                if cnd["k"] != "NullStmt" and not self.cond(cnd):
+                    return None
+                r = self.run(body)
+                if r is not None:
+                    return r
+                if inc["k"] != "NullStmt":
+                    self.step(inc)
+            raise TermError("loop does not terminate within 64 iterations for this configuration")
+        if e["k"] == "UnaryOperator" and e.get("op") in ("++", "--"):
+            self.step(e)
+            return None
+        if k in ("WhileStmt", "DoStmt", "CXXForRangeStmt", "SwitchStmt"):
             raise TermError("%s in a builder: not straight-line per configuration" % k)
         if is_call(e):
             return None      # a call statement whose value is dropped cannot change a term local (locals are only bound by = and declarations)
         raise TermError("statement kind %s not modelled" % k)
+
+    def step(self, e):
+        e = strip(e)
+        if e["k"] == "UnaryOperator" and e.get("op") in ("++", "--"):
+            v = strip(kids(e)[0])
+            cur = self.env.get(v.get("d")) if v["k"] == "DeclRefExpr" else None
+            if cur is None or cur[0] != "c":
+                raise TermError("increment of something that is not an integer local with a known value")
+            self.env[v["d"]] = ("c", cur[1] + (1 if e["op"] == "++" else -1))
+            return
+        raise TermError("loop increment %s not modelled" % noid(render(e, False)))
 
     def result(self):
         body = self.f.d.get("body")
@@ -397,7 +447,7 @@ class Builder:
 
 def nf_deep(t):
     """normal form of the arithmetic parts of a term whose top may be an assignment / comparison / declaration"""
-    if t[0] in ("+=", "-=", "<", "<=", ">", ">=", "decl") or t[0].startswith("OP:"):
+    if t[0] in ("+=", "-=", "<", "<=", ">", ">=", "decl", "[]") or t[0].startswith("OP:"):
         return (t[0], nf_deep(t[1]), nf_deep(t[2]))
     if t[0] in ("unknown", "empty", "null"):
         return t
